@@ -180,6 +180,26 @@ func (c *Ctl) CountEv(names ...string) int {
 	return n
 }
 
+// MergeWindow reports the process whose merge is in flight (a MergeTask event
+// not yet followed by its IntroMerge) and the number of batches introduced
+// since that merge was planned.
+func (c *Ctl) MergeWindow() (proc string, batches int) {
+	c.mu.Lock()
+	defer c.mu.Unlock()
+	for i := len(c.events) - 1; i >= 0; i-- {
+		switch c.events[i]["ev"] {
+		case "IntroMerge", "CloseCall":
+			return "", 0
+		case "IntroBatch":
+			batches++
+		case "MergeTask":
+			p, _ := c.events[i]["proc"].(string)
+			return p, batches
+		}
+	}
+	return "", 0
+}
+
 func (c *Ctl) NumEvents() int {
 	c.mu.Lock()
 	defer c.mu.Unlock()
